@@ -4,3 +4,8 @@ claim("C18",
       "Decides, exhaustively over all registered functions and all fields of CmdType/FilterType, that the tables the JSON round trip relies on are coherent (field present, unique, payload type identical, filter tags well-formed and structurally matching the function they name, JSON names unique) and that the builders wire function, selector/elements and delete/partial roles from the same function-data object. A necessary condition of the property, not the round-trip equality itself.",
       "Trusted: go/types and go/ssa of x/tools v0.29.0, the tag splitting rules of model.EEBusTags, encoding/json. Not decided: decode(encode(v)) == v on values.",
       "DESIGN.md §4 C18")
+claim("C02",
+      "sibling-template matching over all 87 UpdateList methods + cross-wiring lint + type tables + SSA stage-order/provenance rules",
+      "Decides that every per-type UpdateList method wires its own list field, its own parameters and the success&&persist condition into the generic engine (5 obligations x 87 siblings), that no partial/delete filter or remoteWrite/persist flag is cross-wired anywhere in the repository, that key, selector and elements types satisfy the preconditions of the reflective engine, that the engine runs delete, selector, merge and sort in that order on each other's output, and that the store replaces only when no filter is present. Necessary conditions of the update rules; the value-level fold is not decided.",
+      "Trusted: go/types, go/ssa (x/tools v0.29.0). The merge/hash/sort logic inside the engine is computed by reflection on values and is outside what these rules decide.",
+      "DESIGN.md §4 C02")
